@@ -14,6 +14,7 @@ pub fn vpanic()
 { panic!() }
 
 #[verifier::external_body]
+#[derive(Debug)]
 pub struct TError { _p: u8 }
 impl TError {
     #[verifier::external_body]
@@ -31,6 +32,17 @@ pub trait Vec1View<T>: Sized {
     unsafe fn uget(&self, index: usize) -> (r: T)
         requires index < self.view().len(),           // #C10 uget_index_in_range
         ensures r == self.view()[index as int];
+
+    // sub-views (rolling_custom*): `supports_slice` is false for backends whose `slice` is the erroring default
+    type Slice;
+    spec fn slice_view(s: &Self::Slice) -> Seq<T>;
+    spec fn supports_slice(&self) -> bool;
+
+    unsafe fn uslice(&self, start: usize, end: usize) -> (r: TResult<Self::Slice>)
+        requires start <= end <= self.view().len(),        // #C10 uslice_range_in_bounds
+        ensures
+            self.supports_slice() ==> r.is_ok(),
+            r matches Ok(s) ==> Self::slice_view(&s) == self.view().subrange(start as int, end as int);
 }
 
 pub trait UninitRefMut<OT>: Sized {
@@ -130,4 +142,89 @@ pub open spec fn outs<T, OT>(h: Seq<Call<T, OT>>) -> Seq<OT> { Seq::new(h.len(),
 
 pub open spec fn all_elem_ok<T, OT, F: RollingFn<T, OT>>(x: Seq<T>) -> bool {
     forall|i: int| 0 <= i < x.len() ==> F::elem_ok(#[trigger] x[i])
+}
+
+// ---- two-series drivers: the callback sees pairs
+pub open spec fn zipv<T, T2>(a: Seq<T>, b: Seq<T2>) -> Seq<(T, T2)>
+    recommends b.len() >= a.len()
+{
+    Seq::new(a.len(), |i: int| (a[i], b[i]))
+}
+
+// ---- callback protocol: window-index form
+pub struct CallIdx<T, OT> { pub start: Option<usize>, pub end: usize, pub v: T, pub out: OT }
+
+// call k gets end == k, the element at k, and a window start that is None during warm-up and then 0, 1, 2, ...
+pub open spec fn idx_ok<T, OT>(h: Seq<CallIdx<T, OT>>, x: Seq<T>, start: Option<usize>, end: usize, v: T) -> bool {
+    &&& end == h.len() && end < x.len() && v == x[end as int]
+    &&& start.is_none() ==> (h.len() == 0 || h.last().start.is_none())
+    &&& start matches Some(s) ==> {
+        &&& s <= end
+        &&& (h.len() == 0 || h.last().start.is_none()) ==> s == 0
+        &&& (h.len() > 0 && h.last().start.is_some()) ==> s == h.last().start.unwrap() + 1
+    }
+}
+
+pub trait RollingIdxFn<T, OT>: Sized {
+    spec fn hist(&self) -> Seq<CallIdx<T, OT>>;
+    spec fn inv(&self) -> bool;
+    spec fn series(&self) -> Seq<T>;      // ghost: the series the callback may index into
+
+    fn call(&mut self, start: Option<usize>, end: usize, v: T) -> (r: OT)
+        requires
+            old(self).inv(),
+            idx_ok(old(self).hist(), old(self).series(), start, end, v),   // #C02 callback_gets_window_index
+        ensures
+            final(self).inv(),
+            final(self).series() == old(self).series(),
+            final(self).hist() == old(self).hist().push(CallIdx { start, end, v, out: r });
+}
+
+pub open spec fn exp_start(w: int, i: int) -> Option<usize> {
+    if i >= w - 1 { Some((i - w + 1) as usize) } else { None }
+}
+
+pub open spec fn trace_idx_strict<T, OT>(h: Seq<CallIdx<T, OT>>, x: Seq<T>, window: usize) -> bool {
+    &&& h.len() == x.len()
+    &&& forall|i: int| 0 <= i < x.len() ==> (#[trigger] h[i]).v == x[i] && h[i].end == i
+    &&& forall|i: int| 0 <= i < x.len() ==> (#[trigger] h[i]).start == exp_start(wclamp(window, x.len()), i)
+}
+
+pub open spec fn trace_idx_ok<T, OT>(h: Seq<CallIdx<T, OT>>, x: Seq<T>, window: usize) -> bool {
+    &&& h.len() == x.len()
+    &&& forall|i: int| 0 <= i < x.len() ==> (#[trigger] h[i]).v == x[i] && h[i].end == i
+    &&& forall|i: int| 0 <= i < x.len() && (window <= x.len() || i < x.len() - 1)
+            ==> (#[trigger] h[i]).start == exp_start(wclamp(window, x.len()), i)
+}
+
+pub open spec fn out_idx_ok<T, OT>(w: Map<int, OT>, h: Seq<CallIdx<T, OT>>) -> bool {
+    &&& buf_full(w, h.len())
+    &&& forall|i: int| 0 <= i < h.len() ==> w[i] == (#[trigger] h[i]).out
+}
+
+// ---- callback protocol: window-slice form
+pub struct CallSlice<T, OT> { pub s: Seq<T>, pub out: OT }
+
+pub trait SliceFn<S, T, OT>: Sized {
+    spec fn hist(&self) -> Seq<CallSlice<T, OT>>;
+    spec fn inv(&self) -> bool;
+    spec fn sview(s: &S) -> Seq<T>;
+
+    fn call(&mut self, s: S) -> (r: OT)
+        requires old(self).inv(),
+        ensures
+            final(self).inv(),
+            final(self).hist() == old(self).hist().push(CallSlice { s: Self::sview(&s), out: r });
+}
+
+pub open spec fn wstart(w: int, i: int) -> int { if i - w + 1 > 0 { i - w + 1 } else { 0 } }
+
+pub open spec fn trace_slice<T, OT>(h: Seq<CallSlice<T, OT>>, x: Seq<T>, w: int) -> bool {
+    &&& h.len() == x.len()
+    &&& forall|i: int| 0 <= i < x.len() ==> (#[trigger] h[i]).s =~= x.subrange(wstart(w, i), i + 1)
+}
+
+pub open spec fn out_slice_ok<T, OT>(w: Map<int, OT>, h: Seq<CallSlice<T, OT>>) -> bool {
+    &&& buf_full(w, h.len())
+    &&& forall|i: int| 0 <= i < h.len() ==> w[i] == (#[trigger] h[i]).out
 }
